@@ -37,7 +37,7 @@ func InstallResponderContracts(em *Emitted) {
 		if o := f.Origin(); o != nil {
 			key = o.String()
 		}
-		c := em.W.Contracts[key]
+		c := em.W.ContractFor(f)
 		if c == nil {
 			c = &Contract{Name: key, Emitted: true, LoopInv: map[int][]*Clause{}, LoopDec: map[int]*Clause{}, Options: map[string]string{}}
 			em.W.Contracts[key] = c
